@@ -100,8 +100,14 @@ import (
 //@   inline
 //@   nilable options
 
-// NOT under proof: the BATCH, RESULT, REGISTER, EVENT and ERROR codecs (their length/encode loops over children,
+// NOT under proof: the BATCH, RESULT, REGISTER and EVENT codecs (their length/encode loops over children,
 // rows, reason maps and re-built string lists need fold invariants that are not written yet).
+
+// The ERROR codec's two big switches are executed in place by its lemma.
+//@ func (*errorCodec).Encode
+//@   inline
+//@ func (*errorCodec).EncodedLength
+//@   inline
 
 // One lemma per message codec: EncodedLength and Encode are executed on the same message and version; whenever both
 // succeed, the number of bytes written equals the announced length. Both bodies are the real ones.
@@ -264,5 +270,18 @@ func lemmaLenSupported(c *supportedCodec, msg Message, version primitive.Protoco
 }
 
 //@ func lemmaLenSupported
+//@   prop C03
+//@   ensures agree: result
+
+func lemmaLenError(c *errorCodec, msg Message, version primitive.ProtocolVersion) bool {
+	buf := &bytes.Buffer{}
+	if e2 := c.Encode(msg, buf, version); e2 != nil {
+		return true
+	}
+	n, e1 := c.EncodedLength(msg, version)
+	return e1 != nil || buf.Len() == n
+}
+
+//@ func lemmaLenError
 //@   prop C03
 //@   ensures agree: result
